@@ -140,6 +140,16 @@ CHECKS = {
         "layouts (drift).",
         "Field values beyond boundaries are sampled; adapters map layout fields to constructor keywords (trusted, small); which member an undefined element value folds to is not judged.",
     ),
+    "C01": (
+        "DESIGN.md 5/C01",
+        "TLC judges assembled-serialised-parsed-reserialised bursts and re-derives slot type, centre and coded info bits from the fields (Burst.tla with learned Golay/QR rows and BPTC basis); classification decision table checked",
+        "22 payload kinds x 16 colour codes x 4 data sync patterns (+ random combinations) are assembled as TransmissionGenerator does, "
+        "serialised to 33 bytes, parsed and re-serialised; voice bursts around all voice syncs and around embedded signalling for every "
+        "(colour, PI, LCSS) with random embedded bits; TLC judges data type, colour, payload fields and byte identity, recomputes the slot-type "
+        "word, the SYNC pattern, the BPTC-coded / rate-1 info bits from the payload, and compares Burst.__init__'s classification with the "
+        "decision table of the spec for all 33 centre x burst-type rows; no SYNC pattern is a valid EMB word (design level).",
+        "Payload values are sampled (C03 covers the field space); rate-3/4 info bits are not re-derived here (C10); payload field equality is computed by the harness (value-based) and judged as a boolean.",
+    ),
 }
 
 NOT_YET = {}
